@@ -145,6 +145,8 @@ MALFORMED = ['"abc', 'abc"', 'a"b', 'a,,b', 'a,', ',a', '', ',', '"a"b', '"a""b"
 
 def run(ctx):
     rep = ctx.new_report()
+    from vlib.ref import noise as _noise
+    E.set_noise(_noise.strutils_noise())
     maxn = 7 if ctx.thorough else 5
     seglists = []
     for n in range(0, maxn + 1):
